@@ -98,6 +98,7 @@ type GhostHeap struct {
 	Name     string
 	Key, Val Sort
 	Mono     string // optional binary predicate: after a havoc, Mono(new(k), old(k)) for all k
+	Internal bool   // not reachable by user code: unaffected by re-entrant callbacks
 }
 
 type GuardDecl struct{ Struct, Field, MuStruct, Mu string }
@@ -191,7 +192,7 @@ func (db *SpecDB) LoadFile(path string) error {
 		switch kw {
 		case "func", "callback", "method":
 			name, params := rest, []string(nil)
-			if kw != "func" {
+			if kw != "func" || strings.HasSuffix(rest, ")") {
 				if i := strings.LastIndex(rest, "("); i >= 0 && strings.HasSuffix(rest, ")") {
 					name = strings.TrimSpace(rest[:i])
 					for _, p := range strings.Split(rest[i+1:len(rest)-1], ",") {
@@ -381,6 +382,9 @@ func (db *SpecDB) LoadFile(path string) error {
 			gh := &GhostHeap{Name: f[0], Key: specSort(f[1]), Val: specSort(f[2])}
 			if len(f) == 5 && f[3] == "mono" {
 				gh.Mono = f[4]
+			}
+			if len(f) == 4 && f[3] == "internal" {
+				gh.Internal = true
 			}
 			db.GhostHeaps[gh.Name] = gh
 		case "modifies":
